@@ -27,7 +27,7 @@ func init() {
 		Run:         runC03,
 		CaseTimeout: 0,
 		Rule: "case = (small configuration so that files roll over, key universe, single-threaded history of 30-80 calls with explicit Flush, index GC, primary GC, Close and reopen). The directory is imaged at EVERY hook point reached inside Flush/GC/Close/Open calls (hooks sit before each file-system mutation) and after every call; between consecutive images torn variants are synthesised (appended regions cut at 1,2,3,4,5,7,8,12,13,middle,n-5..n-1 bytes and around every record boundary - thorough: every byte for regions <= 512 B; rewritten files emptied and cut). Every image/variant is recovered: OpenStore must succeed, every key must read durable-or-acknowledged state, then the store is used further (puts that roll the files current at the crash, flushes, 2 primary + 2 index GC cycles, Close, reopen) under the C01/C04 oracle with fsck. " +
-			"non-trivial iff the case produced images inside a Flush with pending updates AND inside a GC cycle or Close; distinct = distinct hash of (hook, variant kind, image content). Interleaved family (case index mod 4 == 3): crash states in which a flush AND a collector are both mid-way: a GC cycle (index or primary) is parked at one of its lock-free step points, a Flush with pending updates is started and parked at one of its own step points (pool swapped / before the log write / after it / between primary, index and freelist), the collector is released and runs to its end while the flush stays parked, then the flush finishes; only one of the two ever runs at a time, so the image taken at every hook point is a true point-in-time state; each is recovered under the same oracle. Legacy family (case index mod 16 == 9): the crash happens inside the Open that converts a legacy single-file store (generated as in C10, without dangling entries); every hook point of the conversion and its torn variants is recovered by opening again and must show the legacy store's contents, also after Flush and a rescanning reopen",
+			"non-trivial iff the case produced images inside a Flush with pending updates AND inside a GC cycle or Close; distinct = distinct hash of (hook, variant kind, image content). Churn histories (case index mod 16 == 1): 20-33 rounds of 1-2 writes + Flush on 60-150 byte index files with an index GC cycle every second round. Interleaved family (case index mod 4 == 3): crash states in which a flush AND a collector are both mid-way: a GC cycle (index or primary) is parked at one of its lock-free step points, a Flush with pending updates is started and parked at one of its own step points (pool swapped / before the log write / after it / between primary, index and freelist), the collector is released and runs to its end while the flush stays parked, then the flush finishes; only one of the two ever runs at a time, so the image taken at every hook point is a true point-in-time state; each is recovered under the same oracle. Legacy family (case index mod 16 == 9): the crash happens inside the Open that converts a legacy single-file store (generated as in C10, without dangling entries); every hook point of the conversion and its torn variants is recovered by opening again and must show the legacy store's contents, also after Flush and a rescanning reopen",
 		Assumptions: []string{
 			"process-crash model: everything handed to the kernel survives, user-space buffers are lost; the store uses no mmap",
 			"crash points are those of the executed single-threaded histories (flusher not started, collectors idle)",
@@ -148,6 +148,38 @@ func c03Case(c run.Ctx) (gen.Config, gen.Universe, []seq.Op, *rand.Rand) {
 			ops = append(ops, seq.Op{Kind: "gcp", A: 50})
 		}
 		ops = append(ops, seq.Op{Kind: "flush"}, seq.Op{Kind: "reopen", A: r.IntN(3), B: 1})
+		return cfg, u, ops, r
+	}
+	if c.Index%16 == 1 {
+		// index-GC churn: few small record lists per index file, superseded one after the other, an index
+		// GC cycle every second round - free spans grow record by record across cycles, and a crash
+		// afterwards is recovered by rescanning exactly those files
+		cfg = gen.Config{Primary: gen.MH, Bits: 8, IndexFileSize: []uint32{60, 100, 150}[r.IntN(3)], PrimaryFileSize: []uint32{300, 4096}[r.IntN(2)], FileCache: []int{0, 512}[r.IntN(2)]}
+		u := gen.MakeUniverse(r, cfg.Primary, 8+r.IntN(10))
+		var ops []seq.Op
+		vid := uint64(1)
+		// (every second churn case writes exactly once per round: one record list per flush, so the
+		// order of the lists in the log does not depend on Go's map iteration order)
+		single := (c.Index/16)%2 == 0
+		for i := 0; i < 20+r.IntN(14); i++ {
+			nw := 1 + r.IntN(2)
+			if single {
+				nw = 1
+			}
+			for j := 0; j < nw; j++ {
+				if r.IntN(8) == 0 {
+					ops = append(ops, seq.Op{Kind: "rm", K: r.IntN(len(u.Keys))})
+				} else {
+					ops = append(ops, seq.Op{Kind: "put", K: r.IntN(len(u.Keys)), VID: vid, VLen: 1 + r.IntN(20)})
+					vid++
+				}
+			}
+			ops = append(ops, seq.Op{Kind: "flush"})
+			if i%2 == 1 {
+				ops = append(ops, seq.Op{Kind: "gci", A: r.IntN(2)})
+			}
+		}
+		ops = append(ops, seq.Op{Kind: "flush"}, seq.Op{Kind: "reopen", A: 1, B: 1})
 		return cfg, u, ops, r
 	}
 	u := gen.MakeUniverse(r, cfg.Primary, 4+r.IntN(11))
